@@ -237,6 +237,10 @@ func RandGenBank(r *rand.Rand, o GBOpt, labelPrefix string) seqio.GenBank {
 		if r.Intn(4) == 0 {
 			cm += "\n\n" + words(r, 4) // paragraph break, as in RefSeq comments
 		}
+		if r.Intn(5) == 0 {
+			// lines inside the value that end in blanks (the blanks are text).
+			cm += " \n" + words(r, 2) + "  \n" + words(r, 1+r.Intn(3))
+		}
 		f.Comments = append(f.Comments, cm)
 	}
 	for i, n := 0, r.Intn(3); i < n; i++ {
